@@ -333,6 +333,169 @@ def populated_reads(cls, doc, fresh_canon, targets, fails):
             fails.append((clause, path, dict(det, read_into=how, document=short(doc))))
 
 
+# ---- the PUBLIC view: what the application sees through attribute access (descriptor.__get__), as opposed to the
+# storage slots that X.canon dumps; and the falsy-but-present values of every member type
+def pview(v, depth=0):
+    """canonical dump like X.canon, but every member is fetched with getattr(obj, name)"""
+    if X.is_struct(v) and depth < 8:
+        items = []
+        for name, p in X.class_props(type(v)):
+            if isinstance(p, xs.CurrentTimestampAttributeProperty):
+                continue
+            x = getattr(v, name)
+            if x is None and isinstance(p, (xs.ExtensionNodeProperty, xs._AttributeListBase)):  # noqa: SLF001
+                x = []       # same normal form as X.canon: None and the empty list are one value
+            items.append((name, pview(x, depth + 1)))
+        return (X.class_key(type(v)), tuple(items))
+    if isinstance(v, (list, tuple)) and any(X.is_struct(x) for x in v):
+        return ('list', tuple(pview(x, depth + 1) for x in v))
+    return X.canon(v)
+
+
+SCALAR_PROPS = (xs._AttributeBase, xs.NodeTextProperty)  # noqa: SLF001
+
+
+def public_checks(node, obj, out, path='', depth=0):
+    """attribute access returns the stored value whenever one is stored, and - for the scalar members - the value
+    the descriptor's reader finds in the document"""
+    if depth > 6 or not X.is_struct(obj):
+        return
+    for name, p in X.class_props(type(obj)):
+        if isinstance(p, xs.CurrentTimestampAttributeProperty):
+            continue
+        raw = obj.__dict__.get(p._local_var_name)  # noqa: SLF001
+        try:
+            pub = getattr(obj, name)
+        except Exception as ex:  # noqa: BLE001
+            out.append((f'attribute access raises {type(ex).__name__}', f'{path}.{name}', {'descriptor': type(p).__name__}))
+            continue
+        if raw is not None and X.canon(pub) != X.canon(raw):
+            out.append(('attribute access does not return the stored value', f'{path}.{name}',
+                        {'stored': short(str(X.canon(raw)), 200), 'getattr': short(str(X.canon(pub)), 200),
+                         'descriptor': type(p).__name__}))
+        if node is not None and isinstance(p, SCALAR_PROPS) and not isinstance(p, xs._AttributeListBase) \
+                and slot_present(node, p) is True:  # noqa: SLF001
+            try:
+                in_doc = p.get_py_value_from_node(obj, node)
+            except Exception:  # noqa: BLE001
+                continue
+            if in_doc is not None and X.canon(pub) != X.canon(in_doc):
+                out.append(('attribute access differs from the value in the document', f'{path}.{name}',
+                            {'document value': short(str(X.canon(in_doc)), 200), 'getattr': short(str(X.canon(pub)), 200),
+                             'descriptor': type(p).__name__}))
+    if node is not None:
+        for sub, val, pth in struct_children(node, obj):
+            public_checks(sub, val, out, path + pth, depth + 1)
+
+
+def falsy_values(p):
+    """[(label, value)]: every falsy value of the member's type that can be PRESENT in the XML (plus the first enum
+    member and the empty list)"""
+    from decimal import Decimal
+    from sdc11073.xml_types import dataconverters as dc
+    if isinstance(p, (xs._ElementListProperty, xs._AttributeListBase)):  # noqa: SLF001
+        return [('empty list', [])]
+    if isinstance(p, xs.ExtensionNodeProperty):
+        return [('empty list', xs.ExtensionLocalValue())]
+    if not isinstance(p, SCALAR_PROPS) or isinstance(p, (xs.QNameAttributeProperty, xs.NodeTextQNameProperty)):
+        return []
+    conv = p._converter  # noqa: SLF001
+    is_cls = isinstance(conv, type)
+    out = []
+    if conv is dc.BooleanConverter:
+        out = [('False', False)]
+    elif is_cls and issubclass(conv, dc.IntegerConverter):
+        out = [('int 0', 0)]
+    elif conv is dc.DecimalConverter:
+        out = [('Decimal 0', Decimal(0))]
+    elif conv is dc.DurationConverter:
+        out = [('duration 0.0', 0.0)]
+    elif conv is dc.TimestampConverter:
+        out = [('timestamp 0.0', 0.0)]
+    elif is_cls and issubclass(conv, dc.StringConverter):
+        out = [] if getattr(p, '_min_length', 0) else [('empty string', '')]
+    elif isinstance(conv, dc.EnumConverter):
+        members = list(conv._klass)  # noqa: SLF001
+        out = [('first enum member', members[0])] + [('falsy enum member', m) for m in members[1:] if not m.value]
+    elif isinstance(conv, dc.ClassCheckConverter):
+        kl = conv._klass if isinstance(conv._klass, tuple) else (conv._klass,)  # noqa: SLF001
+        for k, lab, val in ((bool, 'False', False), (int, 'int 0', 0), (float, 'float 0.0', 0.0),
+                            (Decimal, 'Decimal 0', Decimal(0)), (str, 'empty string', '')):
+            if k in kl:
+                out.append((lab, val))
+    return out
+
+
+def falsy_pass(cls, tag, validate, schema, rng, res, count):
+    """every member of cls, set to every falsy value of its type, written, parsed, and read through attribute access"""
+    for name, p in X.class_props(cls):
+        if isinstance(p, xs.CurrentTimestampAttributeProperty) or (cls in G.MEX_SECTIONS and name == 'Dialect'):
+            continue
+        for label, fv in falsy_values(p):
+            gen = G.Gen(rng, max_depth=1, p_optional=0.3)
+            stage = 'generate'
+            try:
+                obj = gen.instance(cls)
+                try:
+                    setattr(obj, name, fv)
+                except Exception:  # noqa: BLE001   the library refuses this value for this member
+                    count('falsy_refused_by_setter')
+                    continue
+                stage = 'write'
+                b1 = tob(X.serialise(obj, tag))
+                if validate and not schema.validate(etree.fromstring(b1)):
+                    count('falsy_not_schema_valid_skipped')
+                    continue
+                stage = 'read'
+                src = etree.fromstring(b1)
+                obj2 = X.parse(cls, src)
+            except Exception as ex:  # noqa: BLE001
+                res['fail'].append({'clause': f'{stage} raises {type(ex).__name__} (falsy value)', 'member': last_member(ex),
+                                    'descriptor': type(p).__name__,
+                                    'detail': {'member': name, 'value': label, 'trace': short(traceback.format_exc()[-700:], 700)}})
+                continue
+            res['falsy'] = res.get('falsy', 0) + 1
+            count('falsy_cases')
+            count('falsy: ' + label)
+            if p._implied_py_value is not None:  # noqa: SLF001
+                count('falsy_member_has_implied_value')
+                if X.canon(p._implied_py_value) != X.canon(fv):  # noqa: SLF001
+                    count('falsy_differs_from_implied_value')
+            elif p._default_py_value is not None:  # noqa: SLF001
+                count('falsy_member_has_default_value')
+            fails = []
+            present = slot_present(src, p)
+            seen = X.canon(getattr(obj2, name))
+            if isinstance(fv, list):
+                want = [X.canon([])]
+            elif present is False:       # '' in a text element etc. may legitimately not be representable: the round trip decides
+                want = None
+            else:
+                want = [X.canon(fv)]
+            if want is not None and seen not in want:
+                fails.append(('falsy value present in the XML is not what attribute access returns', f'.{name}',
+                              {'value': label, 'written': short(str(X.canon(fv)), 120), 'getattr after reading': short(str(seen), 120),
+                               'implied': short(str(X.canon(p._implied_py_value)), 120),  # noqa: SLF001
+                               'descriptor': type(p).__name__}))
+            pv1, pv2 = pview(obj), pview(obj2)
+            if pv1 != pv2:
+                path, a, b = X.canon_diff(pv1, pv2)
+                fails.append(('value read back differs (attribute access)', path,
+                              {'value': label, 'written': short(str(a), 200), 'read': short(str(b), 200),
+                               'descriptor': descriptor_at(obj2, path)}))
+            c1, c2 = X.canon(obj), X.canon(obj2)
+            if c1 != c2:
+                path, a, b = X.canon_diff(c1, c2)
+                fails.append(('value read back differs', path, {'value': label, 'written': short(str(a), 200),
+                                                                 'read': short(str(b), 200)}))
+            out = []
+            public_checks(src, obj2, out)
+            fails += out
+            for clause, member, det in fails:
+                res['fail'].append({'clause': clause, 'member': member, 'descriptor': det.get('descriptor'),
+                                    'detail': dict(det, falsy_member=name, xml=short(b1))})
+
+
 def run_classes():
     import hashlib
     types, elems = load_schema_index()
@@ -374,7 +537,10 @@ def run_classes():
             stage = 'generate'
             fails = []
             try:
+                if i == 0:       # everything present, two levels down: element ORDER of nested anonymous types is validated
+                    gen.full_nested, gen.nonempty_lists = 2, True
                 obj = gen.instance(cls, full=(i == 0))
+                gen.full_nested, gen.nonempty_lists = 0, False
                 stage = 'write'
                 b1 = write_purity(obj, tag, 'generated', fails)
                 stage = 'read'
@@ -410,6 +576,17 @@ def run_classes():
                                         'detail': {'first': short(b1), 'second': short(b2)}})
                     bad = True
             count('purity_generated_value')
+            pv1, pv2 = pview(obj), pview(obj2)
+            if pv1 != pv2:
+                path, a, b = X.canon_diff(pv1, pv2)
+                fails.append(('value read back differs (attribute access)', path,
+                              {'written': short(str(a), 200), 'read': short(str(b), 200), 'xml': short(b1),
+                               'descriptor': descriptor_at(obj2, path)}))
+            out = []
+            public_checks(None, obj, out)
+            public_checks(src, obj2, out)
+            for clause, path, det in out:
+                fails.append((clause, path, dict(det, xml=short(b1))))
             if any(isinstance(p, (xs.ExtensionNodeProperty, xs.AnyEtreeNodeListProperty, xs.AnyEtreeNodeProperty))
                    and raw for (_, p), raw in walk_fields(obj)):
                 count('purity_with_nonempty_extension_or_any')
@@ -489,6 +666,8 @@ def run_classes():
             res['ok'] += not bad
             if not bad:
                 digests.append(hashlib.sha1(b1).hexdigest()[:10])
+        if not req.get('no_falsy'):
+            falsy_pass(cls, tag, validate, schema, rng, res, count)
     return {'results': results, 'stats': stats, 'digests': digests, 'schema_types': len(types), 'schema_elements': len(elems)}
 
 
@@ -710,6 +889,9 @@ def one_prop_case(rng, owner, name, p, kind, conv, cids):
     else:
         part = gen.particle(gen.ctype_of(owner), p)
         v = gen.value(owner, name, p, 0, not p.is_optional, part, 0, 2)
+        fz = [x for _, x in falsy_values(p) if not isinstance(x, list)]
+        if fz and rng.random() < 0.35:       # falsy but present: False, 0, 0.0, Decimal 0, '', first enum member
+            v = rng.choice(fz)
     inst.__dict__[p._local_var_name] = v  # noqa: SLF001
     # ---- the node: empty, or with unrelated content
     node = etree.Element(etree.QName(X.VERIF_NS, 'Owner'), nsmap=dict(X.NSMAP, vx=X.VERIF_NS))
@@ -787,6 +969,28 @@ def one_prop_case(rng, owner, name, p, kind, conv, cids):
         out_val = f'(Some ({read_lit(rv)}))'
     except Exception:  # noqa: BLE001
         out_val = 'None'
+    # ---- attribute access (descriptor.__get__) on an instance that stores what the reader returned
+    get_case = None
+    if out_val != 'None':
+        holder = X.construct(owner)
+        holder.__dict__[p._local_var_name] = rv  # noqa: SLF001
+        im = p._implied_py_value  # noqa: SLF001
+        try:
+            pub = p.__get__(holder, owner)
+            plit_pub = read_lit(pub) if not (pub is im and im is not None and rv is None) else to_val(im)
+            wrong = None
+            if rv is not None and X.canon(pub) != X.canon(rv):
+                wrong = {'stored': short(str(X.canon(rv)), 200), 'attribute access': short(str(X.canon(pub)), 200),
+                         'implied': short(str(X.canon(im)), 200), 'node': short(etree.tostring(read_node))}
+            elif rv is None and im is not None and X.canon(pub) != X.canon(im):
+                wrong = {'stored': 'None', 'attribute access': short(str(X.canon(pub)), 200),
+                         'implied': short(str(X.canon(im)), 200)}
+            get_case = {'ginput': f'({plit}, {"None" if im is None else "(Some (" + to_val(im) + "))"}, {b(not rv)}, '
+                                  f'{read_lit(rv)})',
+                        'gout': plit_pub, 'wrong': wrong, 'falsy_present': rv is not None and not rv,
+                        'has_implied': im is not None}
+        except Exception:  # noqa: BLE001
+            get_case = None
     # ---- update_from_node on an instance whose member already holds a value (`old`), against a fresh instance
     try:
         old_obj = gen.value(owner, name, p, 0, True, gen.particle(gen.ctype_of(owner), p), 0, 2)
@@ -823,7 +1027,7 @@ def one_prop_case(rng, owner, name, p, kind, conv, cids):
     utree = out_tree[len('(Some '):-1] if wrote else lit_tree(before)
     return {'input': f'({plit}, [{tab}], {vlit}, {lit_tree(before)})',
             'tree': out_tree, 'val': out_val, 'kind': kind, 'wrote': wrote, 'none_value': v is None,
-            'uinput': f'({plit}, [{tab}], {OLD_SENTINEL}, {utree})', 'upd': upd, 'stale': stale,
+            'uinput': f'({plit}, [{tab}], {OLD_SENTINEL}, {utree})', 'upd': upd, 'stale': stale, 'get': get_case,
             'read_none': out_val == '(Some (VNone))'}
 
 
